@@ -11,6 +11,7 @@ import (
 
 	"verif/internal/bx"
 	"verif/internal/harness"
+	"verif/internal/space"
 )
 
 // Family is a pump family u·v^n·x.
@@ -31,7 +32,7 @@ func (f Family) Make(n int) []byte {
 func Families(thorough bool) []Family {
 	vs := []string{"a", "b", "0", " ", "ab", "a0", "a ", "é", "\n"}
 	us := []string{"", "b"}
-	xs := []string{"", "b", "0"}
+	xs := []string{"", "b", "0", "!!!!!!!!"} // the long tail lies outside every class of the alphabet: a run that ends well before the end
 	if thorough {
 		vs = append(vs, "ba", "0a", " a", "aé", "a\n", "abc", "ab0", "a.b")
 		us = []string{"", "a", "b", "0"}
@@ -41,6 +42,44 @@ func Families(thorough bool) []Family {
 	for _, v := range vs {
 		for _, u := range us {
 			for _, x := range xs {
+				out = append(out, Family{u, v, x})
+			}
+		}
+	}
+	return out
+}
+
+// TokenFamilies are the pump families derived from a seed pattern's own token alphabet (its literals, class
+// representatives and their neighbours): v ranges over the tokens and the ordered pairs of tokens, u over {"", first
+// token}, x over {"", long out-of-class tail, first token}.
+func TokenFamilies(pattern string, thorough bool) []Family {
+	n := 5
+	if thorough {
+		n = 7
+	}
+	toks := space.TokensFor(pattern, n)
+	var vs []string
+	seen := map[string]bool{}
+	add := func(v string) {
+		if v != "" && len(v) <= 12 && !seen[v] {
+			seen[v] = true
+			vs = append(vs, v)
+		}
+	}
+	for _, t := range toks {
+		add(t)
+	}
+	for _, a := range toks {
+		for _, b := range toks {
+			if a != b {
+				add(a + b)
+			}
+		}
+	}
+	var out []Family
+	for _, v := range vs {
+		for _, u := range []string{"", toks[0]} {
+			for _, x := range []string{"", "!!!!!!!!", toks[0]} {
 				out = append(out, Family{u, v, x})
 			}
 		}
@@ -98,7 +137,7 @@ var RunCompile func(w *harness.W, f CompileFamily)
 func Space(thorough bool) *bx.Space {
 	t := bx.Tier{PN: 3, SK: 0, LASCII: 1, EmbedW: -1, TokL: 1, TokN: 2, SeedEmbW: -1}
 	if thorough {
-		t = bx.Tier{PN: 4, SK: 1, LASCII: 1, EmbedW: -1, TokL: 1, TokN: 2, SeedEmbW: -1}
+		t = bx.Tier{PN: 4, SK: 1, LASCII: 1, EmbedW: -1, TokL: 1, TokN: 2, SeedEmbW: -1} // same seeds first, then their neighbours
 	}
 	return bx.NewSpace(t)
 }
@@ -112,7 +151,7 @@ func Plan(tier string) *harness.Plan {
 	n := 256
 	budget := 150 * time.Second
 	if thorough {
-		n, budget = 1024, 40*time.Minute
+		n, budget = 1024, 25*time.Minute
 	}
 	return &harness.Plan{
 		Units: len(sp.Pats) + len(cfs), Chunk: 8,
@@ -121,7 +160,12 @@ func Plan(tier string) *harness.Plan {
 				panic("wx: not an instrumented build")
 			}
 			if u < len(sp.Pats) {
-				RunUnit(w, sp.Pats[u], fams, n)
+				f := fams
+				if u >= sp.NP && u-sp.NP < len(space.Seeds) {
+					// the strategy seeds also get the families over their own tokens
+					f = append(append([]Family{}, fams...), TokenFamilies(sp.Pats[u], thorough)...)
+				}
+				RunUnit(w, sp.Pats[u], f, n)
 			} else {
 				RunCompile(w, cfs[u-len(sp.Pats)])
 			}
@@ -135,7 +179,7 @@ func Plan(tier string) *harness.Plan {
 		Replay: func(w *harness.W, c *harness.Case) {
 			for _, p := range sp.Pats {
 				if p == c.Pattern {
-					RunUnit(w, p, fams, n)
+					RunUnit(w, p, append(append([]Family{}, fams...), TokenFamilies(p, thorough)...), n)
 					return
 				}
 			}
@@ -145,7 +189,7 @@ func Plan(tier string) *harness.Plan {
 				}
 			}
 		},
-		Rule:  "Work proxy: the library is rebuilt (go build -overlay, generated from the current tree) with a counter incremented at every function entry and at every loop iteration of every non-test Go file; the counter is deterministic. For every pattern AST up to N nodes and every strategy seed (thorough: one-edit neighbours), for every pump family u·v^n·x over the listed u, v, x, the haystack is built at lengths L, 2L, 4L and Match, FindIndex and FindSubmatchIndex are measured on a freshly compiled value after one warm-up call. Oracle: W(4L) <= 2.6·W(2L) whenever W(4L) is large enough to be meaningful (>= 64 ticks per byte-independent constant), and W <= K·(states+8)·(len+1) with a fixed generous K; a search exceeding 40 000 ticks per input byte is stopped and counted as super-linear (the cap is itself a verdict, not a time-out). Compilation: pattern families (nesting, counted repetition, nested repetition, alternation width, class ranges, concatenations, a?^n a^n) at every size up to the bound, oracle W(2k) <= 8·W(k) + c (polynomial growth of degree <= 3). states = (program, family, length) inputs; transitions = measured calls; non-trivial = measurements above the noise threshold.",
+		Rule:  "Work proxy: the library is rebuilt (go build -overlay, generated from the current tree) with a counter incremented at every function entry and at every loop iteration of every non-test Go file; the counter is deterministic. For every pattern AST up to N nodes and every strategy seed (thorough: one-edit neighbours), for every pump family u·v^n·x over the listed u, v, x (for the strategy seeds additionally v over the tokens of the seed's own alphabet and their ordered pairs, x over {empty, an 8-byte out-of-class tail, the first token}), the haystack is built at lengths L, 2L, 4L and Match, FindIndex and FindSubmatchIndex are measured on a freshly compiled value after one warm-up call. Oracle: W(4L) <= 2.6·W(2L) whenever W(4L) is large enough to be meaningful (>= 64 ticks per byte-independent constant), and W <= K·(states+8)·(len+1) with a fixed generous K; a search exceeding 40 000 ticks per input byte is stopped and counted as super-linear (the cap is itself a verdict, not a time-out). Compilation: pattern families (nesting, counted repetition, nested repetition, alternation width, class ranges, concatenations, a?^n a^n) at every size up to the bound, oracle W(2k) <= 8·W(k) + c (polynomial growth of degree <= 3). states = (program, family, length) inputs; transitions = measured calls; non-trivial = measurements above the noise threshold.",
 		Level: "model_checking", Budget: budget, UnitTimeout: 600 * time.Second,
 		Bounds: map[string]any{"pattern_ast_nodes_max": sp.T.PN, "seed_edit_distance": sp.T.SK, "patterns": len(sp.Pats), "pump_families": len(fams), "base_length": n, "lengths": []int{n, 2 * n, 4 * n}, "compile_families": len(cfs)},
 		Assume: []string{"L2: the bounded exploration decides the growth RATE up to 4L on the enumerated families; the existence of a global constant K beyond that is an assumption", "work inside assembly kernels and the standard library is not counted (each call counts one tick); such scans only advance left to right", "ticks are a proxy for time: function entries + loop iterations of library code"},
